@@ -205,7 +205,7 @@ pub fn check(rep: &Report) {
     // differential check on the repository's own fixtures: both read paths agree on every sheet
     crate::props::corpus::range_vs_range_ref::<calamine::Xlsx<_>>(rep, &["xlsx", "xlsm", "xlam"]);
     let t = crate::thorough(&rep.tier);
-    rep.rule("logical sheet = anchor {A1, AB6, ZZ100, XFA1048573} x every set of <= k cells in a 3x4 window (quick: every third two-cell set) x 32 cell kinds (+ optional second sheet); encoding = 28 variation points (Relationship elements with end tags, sheet parts in a sub-folder, cell attribute order, prefix, implicit row/cell r, dimension absent/exact/too small/too large/stale, target spelling, part-name and folder case, stored/deflated, t=n, empty row elements, member order, relationship ids not in sheet order, applyNumberFormat, .rels attribute order, rows never carrying r, text split by CDATA / comments, XML comments, optional neighbours of sheetData, boolean spelling, sst count, numFmt attribute order, General xf without numFmtId, indentation, 1904); per position set all choice vectors with <= 2 deviations (thorough: 3 on sheets of at most one cell) from (number cells, default encoding), plus the full encoding product on single-cell sheets; non-trivial = at least one non-default choice; distinct = by file bytes");
+    rep.rule("logical sheet = anchor {A1, AB6, ZZ100, XFA1048573} x every set of <= k cells in a 3x4 window (quick: every third two-cell set) x 32 cell kinds (+ optional second sheet); encoding = 28 variation points (Relationship elements with end tags, sheet parts in a sub-folder, cell attribute order, prefix, implicit row/cell r, dimension absent/exact/too small/too large/stale, target spelling, part-name and folder case, stored/deflated, t=n, empty row elements, member order, relationship ids not in sheet order, applyNumberFormat, .rels attribute order, rows never carrying r, text split by CDATA / comments, XML comments, optional neighbours of sheetData, boolean spelling, sst count, numFmt attribute order, General xf without numFmtId, indentation, 1904); per position set all choice vectors with <= 2 deviations (thorough: 3 on sheets of at most one cell) from (number cells, default encoding), plus the encoding product (quick: first 512, thorough: first 60000 encodings) on representative sheets; non-trivial = at least one non-default choice; distinct = by file bytes");
     rep.assume("generator emits only ECMA-376-legal variations listed in gen/xlsx.rs; r:-prefixed relationship ids; implicit r only where the cursor rule positions the element correctly");
     let kmax = if t { 3 } else { 2 };
     let dev = if t { 3 } else { 2 };
@@ -242,7 +242,7 @@ pub fn check(rep: &Report) {
                 let mut inner = Chooser::new(&[pinned.clone(), ch_prefix(ch)].concat());
                 run_case(rep, &mut inner, *a, p, &mut local);
                 mirror(ch, &inner, pinned.len());
-            }, &mut st, if t { u64::MAX } else { 512 });
+            }, &mut st, if t { 60_000 } else { 512 });
         }
         rep.cases_bulk(&local);
         stats.lock().unwrap().merge(&st);
@@ -255,7 +255,7 @@ pub fn check(rep: &Report) {
     rep.extra("deviation_bound_completed", json!(dev));
     rep.extra("max_cells_per_sheet", json!(kmax));
     let sk = skipped.load(std::sync::atomic::Ordering::Relaxed);
-    if sk > 0 { rep.cap(&format!("wall cap: {sk} of {} position-set jobs not run", jobs.len())); } else if !t { rep.cap("quick tier: full encoding product capped at 512 encodings per representative sheet"); } else { rep.exhaustive(true); }
+    if sk > 0 { rep.cap(&format!("wall cap: {sk} of {} position-set jobs not run", jobs.len())); } else if !t { rep.cap("quick tier: full encoding product capped at 512 encodings per representative sheet"); } else { rep.cap("thorough tier: the product of all 28 encoding choices (more than 10^8 per sheet) is cut at the first 60000 encodings per representative sheet and kind; the deviation-bounded exploration is complete"); }
 }
 
 // helper pair used to drive a pinned-prefix case from an outer full-product chooser
